@@ -8,6 +8,7 @@ import (
 	"go/ast"
 	"go/printer"
 	"go/token"
+	"go/types"
 	"sort"
 	"strings"
 
@@ -31,6 +32,7 @@ func checkC06(c *Ctx) {
 	c06Policy(c)
 	c06PHash(c)
 	c06Clones(c)
+	c06MsgBytes(c)
 	c06Fragment(c)
 	c06Deliver(c)
 	c07MustDecrypt(c) // includes: Read pulls a new record only when no decrypted data is pending
@@ -925,4 +927,65 @@ func c06Deliver(c *Ctx) {
 		}
 	}
 	c.Check(okOff, rule, fname(rr), "delivery starts behind the record header and explicit IV reported by decrypt", "", "readRecord does not set b.off to decrypt's prefix length", rr.Pos())
+}
+
+// c06MsgBytes: the byte-slice fields of a parsed handshake message (clientHelloMsg.sessionTicket, random, ...) are
+// sub-slices of the message's raw bytes, and the raw bytes are what both sides feed into the Finished / signature
+// transcript. A callee that writes through a byte-slice parameter (write-effect summary: decryptTicket decrypts in
+// place) must therefore never be handed such a field directly — only a private copy.
+func c06MsgBytes(c *Ctx) {
+	rule := "FX-C06-msgbytes"
+	fx := getFX(c)
+	n := 0
+	isMsgField := func(v ssa.Value) (string, bool) {
+		ld, ok := v.(*ssa.UnOp)
+		if !ok || ld.Op != token.MUL {
+			return "", false
+		}
+		fa, ok := ld.X.(*ssa.FieldAddr)
+		if !ok {
+			return "", false
+		}
+		pt, ok := fa.X.Type().Underlying().(*types.Pointer)
+		if !ok {
+			return "", false
+		}
+		nt, ok := pt.Elem().(*types.Named)
+		if !ok || !strings.HasSuffix(nt.Obj().Name(), "Msg") && !strings.HasSuffix(nt.Obj().Name(), "MsgGM") {
+			return "", false
+		}
+		return nt.Obj().Name() + "." + fieldName(fa.X.Type(), fa.Field), true
+	}
+	for f := range c.P.AllFns {
+		if !inRepo(f) || f.Pkg == nil || f.Pkg.Pkg.Name() != "gmtls" || f.Blocks == nil || strings.HasSuffix(c.P.relFile(f.Pos()), "_test.go") {
+			continue
+		}
+		for _, ci := range allCalls(f) {
+			sc := ci.Common().StaticCallee()
+			if sc == nil || !inRepo(sc) || sc.Blocks == nil {
+				continue
+			}
+			w := fx.Writes(sc)
+			if len(w) == 0 {
+				continue
+			}
+			args := ci.Common().Args
+			for i, a := range args {
+				if !isByteSlice(a.Type()) || i >= len(sc.Params) {
+					continue
+				}
+				wit, written := w[root{Kind: rkParam, Idx: i}]
+				if !written {
+					continue
+				}
+				n++
+				name, isField := isMsgField(a)
+				c.Check(!isField, rule, fname(f), fmt.Sprintf("argument %d of %s is not a field of a parsed handshake message", i, fname(sc)), "",
+					fname(sc)+" writes through this parameter ("+fx.describe(root{Kind: rkParam, Idx: i}, wit)+") and is given "+name+", which aliases the raw handshake message that enters the Finished transcript: the transcript is corrupted after the call", ci.Pos())
+			}
+		}
+	}
+	if n < 2 {
+		c.Undecided(rule, "gmtls", "calls that write a byte-slice argument", fmt.Sprintf("only %d found", n), token.NoPos)
+	}
 }
